@@ -442,13 +442,13 @@ struct Case {
     ntasks: usize,
 }
 
-fn gen_case(seed: u64, faults_on: bool) -> Case {
+fn gen_case(seed: u64, faults_on: bool, max_players: usize, small: bool) -> Case {
     let mut rng = Rng::new(seed);
     // real executor threads cost two context switches per step: few, small runs
     let execs = if rng.chance(1, 12) { rng.range(1, 3) as usize } else { 0 };
     let params = ScenParams {
-        max_players: 4,
-        max_product: if execs > 0 { 4 } else { 48 },
+        max_players,
+        max_product: if execs > 0 { 4 } else if small { 6 } else { 48 },
         allow_zero_players: true,
         hash_seeds: true,
     };
@@ -727,19 +727,129 @@ fn fixed_scenarios(vs: u64, quick: bool) -> Vec<(String, Scenario)> {
     v
 }
 
+/// What one exploration covers; the dev-profile child uses a reduced one.
+#[derive(Clone, Copy)]
+struct Plan {
+    quick: bool,
+    dev: bool,
+    all_pairs: bool,
+    extra_ends: usize,
+    nruns: usize,
+    max_players: usize,
+}
+
 pub fn run(tier: &str) -> i32 {
     let vs = verif_seed();
     let quick = tier == "quick";
     let mut ev = Evidence::new("C04", tier, "fault_enumeration");
-    ev.rule = "sweeps: one evaluation per (scenario, from, to) window drained and compared with the unscoped run, and per (scenario, crash point) crash+resume run; seeded runs: one evaluation per simulated run (chain of scopes or windows, seeded schedule, crash_resume/crash_restart/rescope/poll_after_end/migrate faults). distinct_nontrivial = distinct (scenario, from, to) windows with from<to, distinct crash points, and distinct (scenario, scope list, schedule trace) hashes of seeded runs that had >= 2 tasks or >= 1 fired fault".into();
+    ev.rule = "sweeps: one evaluation per (scenario, from, to) window drained and compared with the unscoped run, and per (scenario, crash point) crash+resume run; seeded runs: one evaluation per simulated run (chain of scopes or windows, seeded schedule, crash_resume/crash_restart/rescope/poll_after_end/migrate faults). distinct_nontrivial = distinct (scenario, from, to) windows with from<to, distinct crash points, and distinct (scenario, scope list, schedule trace) hashes of seeded runs that had >= 2 tasks or >= 1 fired fault. The release-profile exploration is followed by a reduced one in a dev-profile child (overflow checks and debug assertions on), whose counts are added".into();
     ev.assumptions = vec![
         "reference is the repository's own unscoped evaluator built from the same Vec<HandRange> value (real-vs-real): C04 is decided independently of whether the full enumeration itself is right (C02)".into(),
         "only valid positions and the terminal as scope bounds, from <= to (outside that the statement is silent)".into(),
-        "scenarios whose unscoped run panics, is not in position order or does not terminate are skipped and counted (that is C08/C02 territory)".into(),
-        "release profile; flops and ranges are sampled, the scope/cut/crash dimension is swept".into(),
+        "where the unscoped run panics or does not terminate, only windows ending before that point are compared; an unscoped run that is out of position order makes the scenario unusable (counted) — that is C08/C02 territory".into(),
+        "flops and ranges are sampled, the scope/cut/crash dimension is swept".into(),
     ];
     let mut logfold = Fold::new();
+    let plan = Plan {
+        quick,
+        dev: false,
+        all_pairs: !quick,
+        extra_ends: if quick { 24 } else { 64 },
+        nruns: if quick { 1500 } else { 40_000 },
+        max_players: if quick { 4 } else { 8 },
+    };
+    explore(&mut ev, vs, &plan, &mut logfold);
+    // the same machinery, reduced, in a dev-profile build of the harness
+    match dev_child(tier) {
+        Ok(v) => {
+            ev.evaluations += v["evaluations"].as_u64().unwrap_or(0);
+            ev.steps += v["steps"].as_u64().unwrap_or(0);
+            ev.extra.insert("dev_profile_child".into(), json!({
+                "evaluations": v["evaluations"], "steps": v["steps"], "violations": v["violations"].as_array().map(|a| a.len()).unwrap_or(0),
+                "event_log_digest": v["event_log_digest"], "distinct_nontrivial": v["distinct"].as_array().map(|a| a.len()).unwrap_or(0),
+            }));
+            if let Some(a) = v["distinct"].as_array() {
+                for d in a {
+                    if let Some(x) = d.as_str().and_then(|x| x.parse::<u64>().ok()) {
+                        ev.distinct.insert(x ^ 0xDE5);
+                    }
+                }
+            }
+            if let Some(a) = v["violations"].as_array() {
+                for x in a {
+                    let mut replay = x["replay"].clone();
+                    replay["profile"] = json!("dev");
+                    ev.violations.push(Violation {
+                        property: "C04".into(),
+                        oracle: x["oracle"].as_str().unwrap_or("").to_string(),
+                        key: format!("dev:{}", x["key"].as_str().unwrap_or("")),
+                        detail: format!("[dev profile] {}", x["detail"].as_str().unwrap_or("")),
+                        seed: x["seed"].as_str().and_then(|s| s.parse().ok()).unwrap_or(vs),
+                        replay,
+                    });
+                }
+            }
+            ev.fault("profile_dev", v["evaluations"].as_u64().unwrap_or(0));
+        }
+        Err(e) => {
+            eprintln!("HARNESS ERROR: dev-profile child: {e}");
+            return 2;
+        }
+    }
+    ev.extra.insert("event_log_digest".into(), json!(format!("{:016x}", logfold.get())));
+    ev.extra.insert("components".into(), json!({
+        "real": ["FlopExhaustiveEvaluator::{new,scope,into_iter}", "iterator next()", "Showdown::new", "MadeHand", "HandRange collect/clone (hooked hasher)"],
+        "stub": ["coordinator handing out scopes and checkpoints (simulator)"],
+        "simulated": ["which worker advances next", "executor thread of each call", "crash/resume, restart, rescope, polls after exhaustion", "build profile (release run + dev child)"],
+    }));
+    ev.extra.insert("inventory_shared_state".into(), json!(inventory()));
+    ev.finish()
+}
 
+fn dev_child(tier: &str) -> Result<Value, String> {
+    let bin = std::env::var("SIM_DEV").map_err(|_| "SIM_DEV not set (run through ./check)".to_string())?;
+    let out = std::process::Command::new(&bin)
+        .arg("c04-dev")
+        .arg(tier)
+        .stderr(std::process::Stdio::inherit())
+        .output()
+        .map_err(|e| format!("{bin}: {e}"))?;
+    if !out.status.success() {
+        return Err(format!("{bin} c04-dev ended with {}", out.status));
+    }
+    let text = String::from_utf8_lossy(&out.stdout);
+    let line = text.lines().rev().find(|l| l.starts_with('{')).ok_or("no JSON from dev child")?;
+    serde_json::from_str(line).map_err(|e| e.to_string())
+}
+
+/// `espada-sim c04-dev <tier>` (the dev-profile binary): reduced exploration, JSON on stdout.
+pub fn dev_child_main(tier: &str) -> i32 {
+    let vs = verif_seed();
+    let quick = tier == "quick";
+    let mut ev = Evidence::new("C04", tier, "fault_enumeration");
+    let mut logfold = Fold::new();
+    let plan = Plan {
+        quick: true,
+        dev: true,
+        all_pairs: false,
+        extra_ends: if quick { 1 } else { 6 },
+        nruns: if quick { 120 } else { 1500 },
+        max_players: 3,
+    };
+    explore(&mut ev, vs, &plan, &mut logfold);
+    let out = json!({
+        "evaluations": ev.evaluations,
+        "steps": ev.steps,
+        "event_log_digest": format!("{:016x}", logfold.get()),
+        "distinct": ev.distinct.iter().take(200_000).map(|d| d.to_string()).collect::<Vec<_>>(),
+        "violations": ev.violations.iter().map(|v| v.to_json()).collect::<Vec<_>>(),
+    });
+    println!("{}", out);
+    0
+}
+
+fn explore(ev: &mut Evidence, vs: u64, plan: &Plan, logfold: &mut Fold) {
+    let quick = plan.quick;
     // ---------------- deterministic sweeps
     let fixed = fixed_scenarios(vs, quick);
     let mut sweep_summary = vec![];
@@ -752,8 +862,11 @@ pub fn run(tier: &str) -> i32 {
             continue;
         }
         // window sweep
-        let all_pairs = !quick && (name == "0-player" || name == "1-player");
-        let extra = if quick { 24 } else { 64 };
+        let all_pairs = plan.all_pairs && (name == "0-player" || name == "1-player");
+        let extra = plan.extra_ends;
+        if plan.dev && name == "2-player" {
+            continue; // dev child: the two cheap fixed scenarios only
+        }
         let so = sweep_windows(&built, u.clone(), all_pairs, extra, run_seed(vs, "C04", name, 1));
         ev.evaluations += so.windows;
         ev.steps += so.calls;
@@ -834,10 +947,12 @@ pub fn run(tier: &str) -> i32 {
     ev.extra.insert("sweeps".into(), json!(sweep_summary));
 
     // ---------------- seeded runs (fault-free batch and fault-injecting batch)
-    let nruns: usize = if quick { 1500 } else { 40_000 };
+    let nruns: usize = plan.nruns;
+    let max_players = plan.max_players;
+    let small = plan.dev;
     for (batch, faults_on) in [("plain", false), ("faults", true)] {
         let cases = par_map(nruns, workers(), move |i| {
-            fresh_thread(|| gen_case(run_seed(vs, "C04", batch, i as u64), faults_on))
+            fresh_thread(|| gen_case(run_seed(vs, "C04", batch, i as u64), faults_on, max_players, small))
         });
         for c in cases {
             ev.evaluations += 1;
@@ -871,14 +986,6 @@ pub fn run(tier: &str) -> i32 {
             }
         }
     }
-    ev.extra.insert("event_log_digest".into(), json!(format!("{:016x}", logfold.get())));
-    ev.extra.insert("components".into(), json!({
-        "real": ["FlopExhaustiveEvaluator::{new,scope,into_iter}", "iterator next()", "Showdown::new", "MadeHand", "HandRange collect/clone (hooked hasher)"],
-        "stub": ["coordinator handing out scopes and checkpoints (simulator)"],
-        "simulated": ["which worker advances next", "executor thread of each call", "crash/resume, restart, rescope, polls after exhaustion"],
-    }));
-    ev.extra.insert("inventory_shared_state".into(), json!(inventory()));
-    ev.finish()
 }
 
 fn pos_index_safe(p: Pos) -> usize {
@@ -893,8 +1000,9 @@ pub fn replay(v: &Value) -> Option<(String, String)> {
     let r = &v["replay"];
     let run = Run::from_json(r).ok()?;
     let res = check_run(&run, None);
+    let prefix = if r["profile"].as_str() == Some("dev") { "dev:" } else { "" };
     res.key.map(|(okey, d)| {
         let scopes: Vec<String> = run.specs.iter().map(|s| format!("{}..{}", pos_str(s.from()), pos_str(s.to()))).collect();
-        (format!("{okey}:{}:{}", scopes.join("+"), scen_key(&run.scens[0])), d)
+        (format!("{prefix}{okey}:{}:{}", scopes.join("+"), scen_key(&run.scens[0])), d)
     })
 }
